@@ -263,6 +263,11 @@ pub fn run(ctx: &mut Ctx) {
             if a == b'^' || b == b'^' { continue; }
             do_marker(ctx, l, &[a, b, b'z'], b"");
         }
+        // a marker with nothing after it (the last two bytes of the text), after nothing, ASCII, a high byte, another marker
+        do_marker(ctx, l, &[], b"");
+        do_marker(ctx, l, &[], b"abc");
+        do_marker(ctx, l, &[], &[0xE9]);
+        do_marker(ctx, l, &[], &[0x61, 0xE9, 0x20]);
         do_marker(ctx, l, &[0xff, 0xfe, b'a', b'b'], b"");
         do_marker(ctx, l, &[0xef, 0xbb, 0xbf, b'a'], b"");
         do_marker(ctx, l, b"abc", &[0xff, 0xfe, b'q']);
@@ -270,7 +275,7 @@ pub fn run(ctx: &mut Ctx) {
     // every ordered pair of markers, with a high byte after each
     for x in "LGCETBJHSK8".chars() {
         for y in "LGCETBJHSK8".chars() {
-            for (s1, s2) in [(&[0xE0u8, 0x61][..], &[0xE9u8, 0x62][..]), (&[0x61][..], &[0xF8, 0xFE, 0x20][..]), (&[][..], &[0xC4][..]), (&[0x41, 0x42][..], &[0x63, 0x61, 0x66, 0xE9][..])] {
+            for (s1, s2) in [(&[0xE0u8, 0x61][..], &[0xE9u8, 0x62][..]), (&[0x61][..], &[0xF8, 0xFE, 0x20][..]), (&[][..], &[0xC4][..]), (&[0x41, 0x42][..], &[0x63, 0x61, 0x66, 0xE9][..]), (&[0xE0u8, 0x61][..], &[][..]), (&[][..], &[][..])] {
                 do_marker2(ctx, x, s1, y, s2);
             }
         }
